@@ -1,4 +1,5 @@
 import Bptk.Core.C11
+import Bptk.Props.C05
 import Mathlib.Algebra.Order.Floor.Ring
 import Mathlib.Data.Rat.Floor
 import Mathlib.Tactic.Linarith
@@ -1938,6 +1939,268 @@ example : CeilRound9 (10 ^ 6 / 2 ^ 51) (10 ^ 6 / 2 ^ 53) ((10 : ℚ) / 1) 10 :=
   ⟨10, 10 ^ 10, 10, by norm_num, by norm_num, fun _ => by norm_num, by norm_num, by
     rw [show (10 : ℚ) = ((10 : ℤ) : ℚ) by norm_num, Int.ceil_intCast]⟩
 
+/-! ## Wave 6 — the float conversion over C05's `Fl` (any rounding function with relative error ≤ `u`)
+
+`ceilRound9_exact` above takes the three error bounds as hypotheses.  Here they are DERIVED from C05's float
+adversary `Fl` (`|fl x − x| ≤ u·|x|`, monotone, idempotent) and C05's `roundDec` (Python's `round(x, p)` on the exact
+value): `quot_float_err` bounds `fl(fl(delay)/fl(dt))` against `delay/dt` by the relative error `relQ u =
+(3u + u²)/(1 − u)`; `roundDec9_close` is the half-unit bound of the 9-decimal rounding; the returned double is
+`fl` of that decimal.  Under `StepBudget F Q B` (`stepBudget_double_arith`: met by IEEE doubles with `Q = 10⁶`,
+`B = 10⁹`): `floatSteps_first` — the first evaluation gives exactly `⌈delay/dt⌉`, also when the float quotient lands
+just above or below an integer (the 9-decimal rounding snaps it back); `floatSteps_reentry` — the stored
+`(k − 1)·dt` re-enters with exactly `k − 1`; `floatKeep_exact` — the countdown keeps the event back `⌈delay/dt⌉` times.
+`C11_witness_no_rounding`: without the rounding the quotient is wrong in both directions. -/
+
+section FloatC05
+open Bptk.C05
+
+/-- the float expression of `handle_delayed_event`: `math.ceil(round(x / h, 9))` for floats `x`, `h` -/
+def floatStepsRaw (F : Fl) (x h : ℚ) : ℤ := ⌈F.fl (roundDec 9 (F.fl (x / h)))⌉
+
+theorem rndHE_close (y : ℚ) : |((rndHE y : ℤ) : ℚ) - y| ≤ 1 / 2 := by
+  have h1 := Int.floor_le y
+  have h2 := Int.lt_floor_add_one y
+  have hf : y.floor = ⌊y⌋ := rfl
+  unfold rndHE
+  simp only [hf]
+  rw [abs_le]
+  split_ifs <;> push_cast <;> constructor <;> linarith
+
+theorem roundDec9_close (x : ℚ) :
+    ∃ m : ℤ, roundDec 9 x = (m : ℚ) / 10 ^ 9 ∧ |(m : ℚ) / 10 ^ 9 - x| ≤ 1 / (2 * 10 ^ 9) := by
+  refine ⟨rndHE (x * pow10 9), ?_, ?_⟩
+  · unfold roundDec; rw [pow10_eq]
+  · have h := rndHE_close (x * pow10 9)
+    rw [pow10_eq] at h
+    have hN : (0 : ℚ) < 10 ^ 9 := by positivity
+    have e : ((rndHE (x * 10 ^ 9) : ℤ) : ℚ) / 10 ^ 9 - x = (((rndHE (x * 10 ^ 9) : ℤ) : ℚ) - x * 10 ^ 9) / 10 ^ 9 := by
+      field_simp
+    rw [pow10_eq, e, abs_div, abs_of_pos hN, div_le_div_iff₀ hN (by positivity)]
+    have h3 := mul_le_mul_of_nonneg_right h (show (0 : ℚ) ≤ 2 * 10 ^ 9 by positivity)
+    norm_num at h3 ⊢
+    linarith
+
+
+/-- the float quotient `fl(fl(delay) / fl(dt))` against the exact one: relative error `(3u + u²)/(1 − u)` -/
+theorem quot_float_err (F : Fl) (hu : F.u < 1) (t d : ℚ) (ht : 0 ≤ t) (hd : 0 < d) :
+    |F.fl (F.fl t / F.fl d) - t / d| ≤ (3 * F.u + F.u ^ 2) / (1 - F.u) * (t / d) := by
+  have e0 := F.u_nonneg
+  have h1u : 0 < 1 - F.u := by linarith
+  have hde := abs_le.mp (F.err d)
+  rw [abs_of_pos hd] at hde
+  have hlo : (1 - F.u) * d ≤ F.fl d := by linarith [hde.1]
+  have hhi : F.fl d ≤ (1 + F.u) * d := by linarith [hde.2]
+  have hh : 0 < F.fl d := lt_of_lt_of_le (by positivity) hlo
+  have hq : 0 ≤ t / d := div_nonneg ht hd.le
+  have ha : 0 ≤ t / F.fl d := div_nonneg ht hh.le
+  have hah : t / F.fl d * F.fl d = t := div_mul_cancel₀ _ (ne_of_gt hh)
+  have hqd : t / d * d = t := div_mul_cancel₀ _ (ne_of_gt hd)
+  -- t / fl d lies between q/(1+u) and q/(1-u)
+  have hup : t / F.fl d * (1 - F.u) ≤ t / d := by
+    have : t / F.fl d * ((1 - F.u) * d) ≤ t / F.fl d * F.fl d := mul_le_mul_of_nonneg_left hlo ha
+    rw [hah] at this
+    have h2 : t / F.fl d * (1 - F.u) * d ≤ t / d * d := by rw [hqd]; linarith
+    exact le_of_mul_le_mul_right h2 hd
+  have hdn : t / d ≤ t / F.fl d * (1 + F.u) := by
+    have : t / F.fl d * F.fl d ≤ t / F.fl d * ((1 + F.u) * d) := mul_le_mul_of_nonneg_left hhi ha
+    rw [hah] at this
+    have h2 : t / d * d ≤ t / F.fl d * (1 + F.u) * d := by rw [hqd]; linarith
+    exact le_of_mul_le_mul_right h2 hd
+  have hq1 := F.quot_err t (F.fl d) hh
+  rw [abs_of_nonneg ha] at hq1
+  have hq1' := abs_le.mp hq1
+  have hP2 : t / d * (1 - F.u) ≤ t / F.fl d * (1 - F.u) * (1 + F.u) := by
+    have := mul_le_mul_of_nonneg_right hdn h1u.le
+    linarith [this, mul_comm (t / F.fl d * (1 + F.u)) (1 - F.u), mul_assoc (t / F.fl d) (1 + F.u) (1 - F.u),
+      mul_assoc (t / F.fl d) (1 - F.u) (1 + F.u), mul_comm (1 + F.u) (1 - F.u)]
+  have e : (3 * F.u + F.u ^ 2) / (1 - F.u) * (t / d) = (3 * F.u + F.u ^ 2) * (t / d) / (1 - F.u) := by ring
+  rw [e, abs_le]
+  generalize t / F.fl d = A at *
+  generalize t / d = q at *
+  generalize F.fl (F.fl t / F.fl d) = X at *
+  have hs1 : 0 ≤ 1 + 2 * F.u + F.u ^ 2 := by positivity
+  have hs2 : 0 ≤ 2 * F.u + F.u ^ 2 := by positivity
+  have k1 := mul_le_mul_of_nonneg_right hup hs1
+  have k2 := mul_le_mul_of_nonneg_right hup hs2
+  have k3 := mul_le_mul_of_nonneg_right hup e0
+  constructor
+  · rw [neg_le, le_div_iff₀ h1u]
+    nlinarith [hq1'.1, hq1'.2]
+  · rw [le_div_iff₀ h1u]
+    nlinarith [hq1'.1, hq1'.2]
+
+
+/-- relative error of the float quotient of two rounded operands -/
+def relQ (u : ℚ) : ℚ := (3 * u + u ^ 2) / (1 - u)
+
+/-- **Budget** under which the float step count is exact: quotients `delay/dt ≤ Q`, denominators of the exact
+quotient `≤ B` (for decimals `delay = dn/10^p`, `dt = tn/10^p`: `B ≥ tn`); `Q·relQ u` is the error of the float
+quotient, `½·10⁻⁹` the rounding to 9 decimals, `u·(Q+1)` the representation of the rounded decimal; integers up to
+`Q + 1` are floats (doubles: up to 2⁵³). For IEEE doubles (`u = 2⁻⁵³`): `Q = 10⁶`, `B = 10⁹` satisfy it
+(`stepBudget_double_arith`). -/
+structure StepBudget (F : Fl) (Q : ℚ) (B : ℕ) : Prop where
+  u_lt : F.u < 1
+  Q_nonneg : 0 ≤ Q
+  B_pos : 1 ≤ B
+  snap : 2 * (Q * relQ F.u) * 10 ^ 9 < 1
+  sep : (B : ℚ) * (Q * relQ F.u + 1 / (2 * 10 ^ 9) + F.u * (Q + 1)) < 1
+  ints : ∀ z : ℤ, |(z : ℚ)| ≤ Q + 1 → F.fl z = z
+
+theorem relQ_nonneg (u : ℚ) (h0 : 0 ≤ u) (h1 : u < 1) : 0 ≤ relQ u := by
+  unfold relQ; apply div_nonneg <;> nlinarith
+
+theorem relQ_ge (u : ℚ) (h0 : 0 ≤ u) (h1 : u < 1) : 2 * u + u ^ 2 ≤ relQ u := by
+  unfold relQ
+  rw [le_div_iff₀ (by linarith)]
+  nlinarith [mul_nonneg h0 h0, mul_nonneg (mul_nonneg h0 h0) h0]
+
+/-- the arithmetic of the budget for IEEE doubles: `u = 2⁻⁵³`, `Q = 10⁶`, `B = 10⁹` -/
+theorem stepBudget_double_arith :
+    2 * ((10 : ℚ) ^ 6 * relQ (1 / 2 ^ 53)) * 10 ^ 9 < 1 ∧
+    ((10 ^ 9 : ℕ) : ℚ) * (10 ^ 6 * relQ (1 / 2 ^ 53) + 1 / (2 * 10 ^ 9) + 1 / 2 ^ 53 * (10 ^ 6 + 1)) < 1 := by
+  unfold relQ; constructor <;> norm_num
+
+/-- one evaluation of `ceil(round(x / h, 9))` whose float quotient is within `Q·relQ u` of the exact quotient `a/b` -/
+theorem floatStepsRaw_exact (F : Fl) (Q : ℚ) (B : ℕ) (bud : StepBudget F Q B) (x h : ℚ) (a : ℤ) (b : ℕ)
+    (hb : 0 < b) (hbB : b ≤ B) (hq0 : 0 ≤ (a : ℚ) / b) (hqQ : (a : ℚ) / b ≤ Q)
+    (herr : |F.fl (x / h) - (a : ℚ) / b| ≤ Q * relQ F.u) : floatStepsRaw F x h = ⌈(a : ℚ) / b⌉ := by
+  have e0 := F.u_nonneg
+  have hr := relQ_nonneg F.u e0 bud.u_lt
+  have he1 : 0 ≤ Q * relQ F.u := mul_nonneg bud.Q_nonneg hr
+  obtain ⟨m, hm, hmc⟩ := roundDec9_close (F.fl (x / h))
+  have hbq : (b : ℚ) ≤ B := by exact_mod_cast hbB
+  have hb0 : (0 : ℚ) ≤ b := by positivity
+  have hsum : 0 ≤ Q * relQ F.u + 1 / (2 * 10 ^ 9) + F.u * (Q + 1) := by
+    have := bud.Q_nonneg; positivity
+  have hsep : (b : ℚ) * (Q * relQ F.u + 1 / (2 * 10 ^ 9) + F.u * (Q + 1)) < 1 :=
+    lt_of_le_of_lt (mul_le_mul_of_nonneg_right hbq hsum) bud.sep
+  -- |m / 10^9| ≤ Q + 1
+  have hmabs : |(m : ℚ) / 10 ^ 9| ≤ Q + 1 := by
+    have h1 := abs_le.mp herr
+    have h2 := abs_le.mp hmc
+    have hsnap := bud.snap
+    have : Q * relQ F.u < 1 / 2 := by nlinarith
+    rw [abs_le]; constructor <;> norm_num at h2 ⊢ <;> linarith [h1.1, h1.2, h2.1, h2.2]
+  apply ceilRound9_exact (Q * relQ F.u) (F.u * (Q + 1)) a b hb _ bud.snap hsep
+  refine ⟨F.fl (x / h), m, F.fl ((m : ℚ) / 10 ^ 9), herr, hmc, ?_, ?_, ?_⟩
+  · rintro ⟨z, hz⟩
+    rw [hz]
+    apply bud.ints
+    rw [← hz]; exact hmabs
+  · have := F.err ((m : ℚ) / 10 ^ 9)
+    exact le_trans this (mul_le_mul_of_nonneg_left hmabs e0)
+  · unfold floatStepsRaw; rw [hm]
+
+/-- the first evaluation: `delay`, `dt` exact decimals, the code holds their floats -/
+theorem floatSteps_first (F : Fl) (Q : ℚ) (B : ℕ) (bud : StepBudget F Q B) (delay dt : ℚ) (a : ℤ) (b : ℕ)
+    (hdelay : 0 ≤ delay) (hdt : 0 < dt) (hab : delay / dt = (a : ℚ) / b) (hb : 0 < b) (hbB : b ≤ B) (hQ : delay / dt ≤ Q) :
+    floatStepsRaw F (F.fl delay) (F.fl dt) = ⌈delay / dt⌉ := by
+  have hq0 : 0 ≤ delay / dt := div_nonneg hdelay hdt.le
+  have herr := quot_float_err F bud.u_lt delay dt hdelay hdt
+  have hr := relQ_nonneg F.u F.u_nonneg bud.u_lt
+  have : |F.fl (F.fl delay / F.fl dt) - (a : ℚ) / b| ≤ Q * relQ F.u := by
+    rw [← hab]
+    refine le_trans herr ?_
+    unfold relQ at *
+    rw [mul_comm]
+    exact mul_le_mul_of_nonneg_right hQ hr
+  rw [hab] at hq0 hQ ⊢
+  exact floatStepsRaw_exact F Q B bud _ _ a b hb hbB hq0 hQ this
+
+/-- the re-entry: after keeping the event back the code stores `fl((k − 1)·h)` (`h` = the float `dt`); evaluated
+against the same `h` it gives exactly `k − 1` -/
+theorem floatSteps_reentry (F : Fl) (Q : ℚ) (B : ℕ) (bud : StepBudget F Q B) (h : ℚ) (hh : 0 < h) (n : ℕ)
+    (hn : (n : ℚ) ≤ Q) : floatStepsRaw F (F.fl ((n : ℚ) * h)) h = n := by
+  have e0 := F.u_nonneg
+  have hq := F.quot_err ((n : ℚ) * h) h hh
+  have hnh : (n : ℚ) * h / h = n := by field_simp
+  rw [hnh] at hq
+  have hn0 : (0 : ℚ) ≤ n := by positivity
+  rw [abs_of_nonneg hn0] at hq
+  have hge := relQ_ge F.u e0 bud.u_lt
+  have herr : |F.fl (F.fl ((n : ℚ) * h) / h) - ((n : ℤ) : ℚ) / ((1 : ℕ) : ℚ)| ≤ Q * relQ F.u := by
+    have : ((n : ℤ) : ℚ) / ((1 : ℕ) : ℚ) = n := by norm_num
+    rw [this]
+    refine le_trans hq ?_
+    have := relQ_nonneg F.u e0 bud.u_lt
+    nlinarith
+  have := floatStepsRaw_exact F Q B bud (F.fl ((n : ℚ) * h)) h (n : ℤ) 1 (by norm_num) bud.B_pos
+    (by norm_num) (by norm_num; exact hn) herr
+  rw [this]
+  norm_num
+
+/-- `handle_delayed_event` called once per step on the same event (`h` the float `dt`, `x` the stored float delay):
+how often it keeps the event back -/
+def floatKeep (F : Fl) (h : ℚ) : ℕ → ℚ → ℕ
+  | 0, _ => 0
+  | fuel + 1, x =>
+    if floatStepsRaw F x h ≤ 0 then 0
+    else 1 + floatKeep F h fuel (F.fl (((floatStepsRaw F x h - 1 : ℤ) : ℚ) * h))
+
+theorem floatKeep_reentry (F : Fl) (Q : ℚ) (B : ℕ) (bud : StepBudget F Q B) (h : ℚ) (hh : 0 < h) :
+    ∀ (n : ℕ) (fuel : ℕ), (n : ℚ) ≤ Q → n < fuel → floatKeep F h fuel (F.fl ((n : ℚ) * h)) = n := by
+  intro n
+  induction n with
+  | zero =>
+    intro fuel hQ hf
+    obtain ⟨f, rfl⟩ : ∃ f, fuel = f + 1 := ⟨fuel - 1, by omega⟩
+    have := floatSteps_reentry F Q B bud h hh 0 hQ
+    simp only [floatKeep, this]
+    simp
+  | succ n ih =>
+    intro fuel hQ hf
+    obtain ⟨f, rfl⟩ : ∃ f, fuel = f + 1 := ⟨fuel - 1, by omega⟩
+    have hk := floatSteps_reentry F Q B bud h hh (n + 1) hQ
+    have hnQ : (n : ℚ) ≤ Q := by push_cast at hQ; linarith
+    simp only [floatKeep, hk]
+    have h1 : ¬ (((n + 1 : ℕ) : ℤ) ≤ 0) := by push_cast; omega
+    rw [if_neg h1]
+    have h2 : ((((n + 1 : ℕ) : ℤ) - 1 : ℤ) : ℚ) = (n : ℚ) := by push_cast; ring
+    rw [h2, ih f hnQ (by omega)]
+    omega
+
+/-- **The float conversion is exact.** Within the budget, for `delay ≥ 0`, `dt > 0` whose exact quotient is `a/b`
+with `b ≤ B` and at most `Q`, the real countdown (`ceil(round(delay/dt, 9))`, store `(k−1)·dt`, re-evaluate)
+keeps the event back exactly `⌈delay/dt⌉` times. -/
+theorem floatKeep_exact (F : Fl) (Q : ℚ) (B : ℕ) (bud : StepBudget F Q B) (delay dt : ℚ) (a : ℤ) (b : ℕ)
+    (hdelay : 0 ≤ delay) (hdt : 0 < dt) (hab : delay / dt = (a : ℚ) / b) (hb : 0 < b) (hbB : b ≤ B) (hQ : delay / dt ≤ Q)
+    (fuel : ℕ) (hf : ⌈delay / dt⌉.toNat < fuel) :
+    floatKeep F (F.fl dt) fuel (F.fl delay) = ⌈delay / dt⌉.toNat := by
+  have e0 := F.u_nonneg
+  have hde := abs_le.mp (F.err dt)
+  rw [abs_of_pos hdt] at hde
+  have hh : 0 < F.fl dt := by
+    have : 0 < (1 - F.u) * dt := mul_pos (by linarith [bud.u_lt]) hdt
+    linarith [hde.1]
+  have hk := floatSteps_first F Q B bud delay dt a b hdelay hdt hab hb hbB hQ
+  have hq0 : 0 ≤ delay / dt := div_nonneg hdelay hdt.le
+  have hc0 : 0 ≤ ⌈delay / dt⌉ := Int.ceil_nonneg hq0
+  obtain ⟨f, rfl⟩ : ∃ f, fuel = f + 1 := ⟨fuel - 1, by omega⟩
+  simp only [floatKeep, hk]
+  by_cases hz : ⌈delay / dt⌉ ≤ 0
+  · rw [if_pos hz]; omega
+  · rw [if_neg hz]
+    obtain ⟨n, hn⟩ : ∃ n : ℕ, ⌈delay / dt⌉ = (n : ℤ) + 1 := ⟨(⌈delay / dt⌉ - 1).toNat, by omega⟩
+    have hlt := Int.ceil_lt_add_one (delay / dt)
+    have hnQ : (n : ℚ) ≤ Q := by
+      have : ((⌈delay / dt⌉ : ℤ) : ℚ) = (n : ℚ) + 1 := by rw [hn]; push_cast; ring
+      linarith
+    have h2 : ((⌈delay / dt⌉ - 1 : ℤ) : ℚ) = (n : ℚ) := by rw [hn]; push_cast; ring
+    rw [h2, floatKeep_reentry F Q B bud (F.fl dt) hh n f hnQ (by omega)]
+    omega
+
+/-- non-vacuity: exact arithmetic meets the budget (`Q = 10⁶`, `B = 10⁹`) -/
+example : StepBudget Fl.exact (10 ^ 6) (10 ^ 9) :=
+  { u_lt := by norm_num [Fl.exact], Q_nonneg := by norm_num, B_pos := by norm_num,
+    snap := by norm_num [Fl.exact, relQ], sep := by norm_num [Fl.exact, relQ], ints := fun _ _ => rfl }
+
+/-- Without `round(…, 9)` the count is wrong in both directions (IEEE doubles, kernel-checked): `2.1/0.3` lands
+ABOVE 7 (a bare `ceil` gives 8 steps), `0.3/0.1` lands BELOW 3 (a floor/truncation based count gives 2). -/
+theorem C11_witness_no_rounding : ((2.1 : Float) / 0.3 > 7.0) ∧ ((0.3 : Float) / 0.1 < 3.0) := by
+  decide +kernel
+
+end FloatC05
+
 #print axioms C11_full_proved
 #print axioms C11_routing
 #print axioms C11_dropped_only_when_absent
@@ -1969,5 +2232,12 @@ example : CeilRound9 (10 ^ 6 / 2 ^ 51) (10 ^ 6 / 2 ^ 53) ((10 : ℚ) / 1) 10 :=
 #print axioms keptBack_eq_ceil
 #print axioms stepsOf_eq_ceil
 #print axioms delay_float_steps
+#print axioms quot_float_err
+#print axioms floatStepsRaw_exact
+#print axioms floatSteps_first
+#print axioms floatSteps_reentry
+#print axioms floatKeep_exact
+#print axioms stepBudget_double_arith
+#print axioms C11_witness_no_rounding
 
 end Bptk.C11
